@@ -15,7 +15,8 @@ import (
 	"verif/checker/internal/load"
 )
 
-const controlSource = `package main
+const controlSource = `//go:debug gotypesalias=0
+package main
 
 import (
 	"os"
